@@ -4,6 +4,7 @@ import FastorModel.Driver.Expr
 import FastorModel.Driver.Lazy
 import FastorModel.Driver.Config
 import FastorModel.Driver.LU
+import FastorModel.Driver.Solve
 /-
   `fmodel`: line-protocol driver.  Reads one case per line on stdin, prints the model's observables
   for it.  The harness prints the implementation's observables for the same case in the same format.
@@ -21,6 +22,9 @@ def step (line : String) : String :=
   | "lazy" :: rest => runLazy (parseKV rest)
   | "config" :: rest => runConfig (parseKV rest)
   | "lu" :: rest => runLU (parseKV rest)
+  | "solve" :: rest => runSolve (parseKV rest)
+  | "fsub" :: rest => runFsub (parseKV rest)
+  | "bsub" :: rest => runBsub (parseKV rest)
   | _ => "bad-op"
 
 partial def loop (h : IO.FS.Stream) (out : IO.FS.Stream) : IO Unit := do
